@@ -75,6 +75,8 @@ SCHEMES = [
     # the two units TotalDepth's LAS reader has a LAS-to-LIS translation for, on the index channel and elsewhere
     {'names': ['DEPT', 'TENS', 'WF'], 'units': ['F', 'F', 'mts'], 'longs': ['Depth', 'Tension', 'Wave']},
     {'names': ['DEPTH', 'WF', 'TENS'], 'units': ['mts', 'mts', 'F'], 'longs': ['Depth', 'Wave', 'Tension']},
+    # lower and mixed case names: a name is text, not a keyword
+    {'names': ['Dept', 'Gr', 'rhob'], 'units': ['m', 'gAPI', 'g/cm3'], 'longs': ['depth', 'gamma ray', 'bulk density']},
 ]
 # index channel specs used when there is more than one channel (dtype, dims); pattern is always the ramp 'idx'
 XSPECS = [('f8', (1,)), ('i4', (1,)), ('f4', (3,)), ('u2', (2, 2))]
@@ -112,6 +114,11 @@ def alphabet(dt):
     for v in [0, 1, -1, 2, -2, 100, -100, 123456, -123457, 10 ** 15, -10 ** 15, hi, lo, hi - 1, lo + 1]:
         if lo <= v <= hi and v not in out:
             out.append(v)
+    # 64 bit types: neighbours whose sum leaves the type although each value (and their mean) is exact in a double
+    if dt == 'i8':
+        out += [2 ** 62, 2 ** 62 + 1024, -2 ** 62, -2 ** 62 - 1024]
+    elif dt == 'u8':
+        out += [2 ** 63, 2 ** 63 + 2048]
     return out
 
 
@@ -549,7 +556,7 @@ def cases_of(shard, tier):
         frames = [1, 3] if quick else FRAMES
         pairs = [(16, '.3f'), (8, '.0f'), (1, '.6f')] if quick else list(itertools.product(WIDTHS, FORMATS))
         for pat in pats:
-            schemes = [0, 1, 3, 4] if pat == 'idx' else [0]
+            schemes = [0, 1, 3, 4, 5] if pat == 'idx' else [0]
             for scheme in schemes:
                 names = SCHEMES[scheme]['names'][:1]
                 subs = [[], [UNKNOWN]] if quick else [[], [names[0]], [UNKNOWN]]
@@ -561,7 +568,7 @@ def cases_of(shard, tier):
         frames = [2] if quick else FRAMES
         pairs = [(8, '.3f'), (1, '.0f')] if quick else PAIRS5
         for pi, pat in enumerate(pats):
-            schemes = [0, 1, 2, 3, 4] if pi == 0 else [0]
+            schemes = [0, 1, 2, 3, 4, 5] if pi == 0 else [0]
             for scheme in schemes:
                 subs = _subsets(SCHEMES[scheme]['names'][:2])
                 for fr, method, sub, (fw, fmt) in itertools.product(frames, METHODS, subs, pairs):
@@ -575,7 +582,7 @@ def cases_of(shard, tier):
         pairs = [(8, '.3f')] if quick else [(16, '.3f'), (8, '.0f'), (1, '.6f')]
         for pat in pats:
             pat3 = (pat + 2) % n_rot(dt3)
-            for scheme in ([0, 2, 3] if quick else [0, 1, 2, 3, 4]):
+            for scheme in ([0, 2, 3, 5] if quick else [0, 1, 2, 3, 4, 5]):
                 subs = _subsets(SCHEMES[scheme]['names'][:3])
                 for fr, method, sub, (fw, fmt) in itertools.product(frames, METHODS, subs, pairs):
                     yield _mk(scheme, [(xdt, xdims, 'idx'), (dt, dims, pat), (dt3, dims3, pat3)], fr, method, sub, fw, fmt)
